@@ -212,7 +212,7 @@ func main() {
 		}
 		return
 	}
-	discharge(reps, solveCfg{dir: scratch, timeoutS: *timeout, seed: seed, workers: 12, each: *tier == "thorough"})
+	discharge(reps, solveCfg{dir: scratch, timeoutS: *timeout, seed: seed, workers: 7, each: *tier == "thorough"})
 	res := summarize(*prop, *tier, seed, pc, reps, x, *verif, *repo, specFiles, t0, loadS, genS, *verbose, *timeout)
 	if !*noEvidence && *fnKey == "" {
 		must(writeEvidence(filepath.Join(*verif, "evidence", *prop+".json"), res.evidence))
@@ -369,6 +369,17 @@ func summarize(prop, tier string, seed int, pc *PropCfg, reps []*FuncReport, x *
 				fmt.Println("  degraded:", n)
 			}
 		}
+		// a failed obligation is assumed downstream, so reachability queries after a known finding are inconclusive
+		hasKnown := false
+		for _, o := range r.Obls {
+			if o.Expect != "sat" && o.Status != "unsat" {
+				for _, k := range known {
+					if k.prop == prop && k.obl == o.Name {
+						hasKnown = true
+					}
+				}
+			}
+		}
 		for _, o := range r.Obls {
 			if o.Expect == "sat" {
 				nCover++
@@ -376,7 +387,9 @@ func summarize(prop, tier string, seed int, pc *PropCfg, reps []*FuncReport, x *
 				case "sat":
 					nCoverOK++
 				case "unsat":
-					vacuity = append(vacuity, o.Name)
+					if !hasKnown {
+						vacuity = append(vacuity, o.Name)
+					}
 				}
 				continue
 			}
